@@ -324,6 +324,8 @@ def coq_eval(pid, imports, exprs, chunk=400, timeout=900):
 # ---------------------------------------------------------------- Go side
 
 def go_build(cmd, tags=True):
+    """build harness/cmd/<cmd> against REPO's working tree (go.mod says `replace => /repo`;
+    for a development run with VERIF_REPO set, an alternative modfile redirects the replace)"""
     os.makedirs(os.path.join(HARNESS, "bin"), exist_ok=True)
     gosum = os.path.join(HARNESS, "go.sum")
     try:
@@ -331,6 +333,13 @@ def go_build(cmd, tags=True):
     except OSError:
         pass
     args = ["go", "build"]
+    if os.path.realpath(REPO) != "/repo":
+        alt = os.path.join(HARNESS, "alt.mod")
+        src = open(os.path.join(HARNESS, "go.mod")).read().replace("=> /repo", "=> " + os.path.realpath(REPO))
+        if not os.path.exists(alt) or open(alt).read() != src:
+            open(alt, "w").write(src)
+        shutil.copyfile(gosum, os.path.join(HARNESS, "alt.sum"))
+        args += ["-modfile", alt]
     if tags:
         args += ["-tags", "verif"]
     args += ["-o", os.path.join("bin", cmd), "./cmd/" + cmd]
@@ -556,6 +565,13 @@ def run_property(mod, tier, seed, replay=None):
                         axioms_used.add(STD_AXIOMS[ax])
                     else:
                         broken.append(("theorem %s depends on non-standard axiom" % t, ax))
+        coqchk_out = None
+        if tier == "thorough" and ok_b and os.environ.get("VERIF_NO_COQCHK") != "1":
+            with Lock("coq"):
+                rcc, outc = sh(["timeout", "3000", "coqchk", "-silent", "-o", "-R", "theories", "GoGit", "GoGit.Properties." + pid], cwd=COQ, timeout=3100)
+            coqchk_out = outc[-3000:]
+            if rcc != 0:
+                broken.append(("coqchk re-check of Properties.%s" % pid, coqchk_out))
         # 3-4: implementation side
         suites = mod.SUITES
         built = set()
@@ -675,6 +691,7 @@ def run_property(mod, tier, seed, replay=None):
                 "known_findings_replayed": sorted(known_hits), "fixed_findings": [f.get("what") for f in fixed],
                 "broken": [str(b)[:500] for b in broken[:10]],
                 "modelled": getattr(mod, "MODELLED", ""),
+                "coqchk": coqchk_out,
                 "notes": ctx.notes,
             },
             "assumptions": list(getattr(mod, "ASSUMPTIONS", [])),
